@@ -178,21 +178,31 @@ obj_callable = z3.Function('obj_callable', V, BoolS)
 
 def b_partial(en, st, a, kw):
     f = a[0]
-    if len(a) > 1:
-        raise SX.OutOfSubset("partial with positional arguments")
     if '**' in kw:
         raise SX.OutOfSubset("partial with **")
+    if any(isinstance(x, tuple) for x in a):
+        raise SX.OutOfSubset("partial with *args")
     ft, st = en.term(f, st)
     bound = V.fbound(ft)
+    pos = list(a[1:])
+    if pos:
+        # positional bound arguments are stored under integer keys (after the ones already bound)
+        prev = concrete_list(z3.simplify(bound))
+        if prev is None:
+            raise SX.OutOfSubset("positional partial over a symbolic closure")
+        npos = sum(1 for p in prev if z3.is_true(z3.simplify(V.is_Int(V.fst(p)))))
+        for i, v in enumerate(pos):
+            vt, st = en.term(v, st)
+            bound = snoc(bound, V.Pair(V.Int(npos + i), vt))
     for k, v in kw.items():
         vt, st = en.term(v, st)
         bound = assoc_set(bound, S(k), vt)
     res = z3.simplify(V.Fun(V.fname(ft), bound))
 
-    def call(en2, s, a2, kw2, f=f, kw=kw):
+    def call(en2, s, a2, kw2, f=f, kw=kw, pos=pos):
         merged = dict(kw)
         merged.update(kw2)
-        return en2.call(f, s, a2, merged)
+        return en2.call(f, s, pos + list(a2), merged)
     return [(st.assume(V.is_Fun(ft)), SX.PyFunc('partial', call, term=res))]
 
 
